@@ -23,18 +23,18 @@ type cev struct {
 }
 
 type CExec struct {
-	c      *Ctx
-	name   string
-	sock   mangos.Socket
-	proto  *vt.Proto
-	mu     sync.Mutex
-	evs    []cev
-	canon  map[uint32]int // real pipe id -> k
-	realID map[int]uint32
-	pipes  map[int]mangos.Pipe
-	tpipes map[int]*vt.Pipe // transport pipes by k (assigned when the hook first sees them)
-	pendingT []*vt.Pipe
-	npipes int
+	c             *Ctx
+	name          string
+	sock          mangos.Socket
+	proto         *vt.Proto
+	mu            sync.Mutex
+	evs           []cev
+	canon         map[uint32]int // real pipe id -> k
+	realID        map[int]uint32
+	pipes         map[int]mangos.Pipe
+	tpipes        map[int]*vt.Pipe // transport pipes by k (assigned when the hook first sees them)
+	pendingT      []*vt.Pipe
+	npipes        int
 	hookCloseNext bool
 	closeFirst    bool
 	parkedK       int
@@ -42,14 +42,14 @@ type CExec struct {
 	attachHold    chan struct{} // non-nil while an Attaching callback is parked
 	hookHold      chan struct{}
 	holding       bool
-	listeners map[int]mangos.Listener
-	dialers   map[int]mangos.Dialer
-	calls     map[int]chan error
-	ncall     int
-	attSeen   map[int]int
-	ops       []string
-	t0        time.Time
-	broken    bool
+	listeners     map[int]mangos.Listener
+	dialers       map[int]mangos.Dialer
+	calls         map[int]chan error
+	ncall         int
+	attSeen       map[int]int
+	ops           []string
+	t0            time.Time
+	broken        bool
 	// oracle state (C13): per pipe the hook events in order
 	hooklog map[int][]string
 	idsSeen map[uint32]bool
@@ -266,7 +266,9 @@ func dialErrName(err error) string {
 	return n
 }
 
-func (e *CExec) addr(kind string, n int) string { return fmt.Sprintf("verif://%s-%s%d", e.name, kind, n) }
+func (e *CExec) addr(kind string, n int) string {
+	return fmt.Sprintf("verif://%s-%s%d", e.name, kind, n)
+}
 
 func (e *CExec) Op(lhs string, f func() []cev) string {
 	pre := f()
@@ -276,7 +278,9 @@ func (e *CExec) Op(lhs string, f func() []cev) string {
 	return obs
 }
 
-func resEv(err error) []cev { return []cev{{0, "res:" + map[bool]string{true: "ok", false: ""}[err == nil] + errOr(err)}} }
+func resEv(err error) []cev {
+	return []cev{{0, "res:" + map[bool]string{true: "ok", false: ""}[err == nil] + errOr(err)}}
+}
 func errOr(err error) string {
 	if err == nil {
 		return ""
